@@ -103,10 +103,10 @@ def tlc_variants(work, files, mode, nvar, seed, maxsize=6000, edges=None):
     return allv
 
 
-def reader_dumps(work, paths, flavor="asan", mode="dump", label="rd", chunk=1):
+def reader_dumps(work, paths, flavor="asan", mode="dump", label="rd", chunk=1, defs=(), fwd=False):
     """rd_driver on a list of files (sharded; `chunk` consecutive files stay together, in order, in one process);
     returns {filename: event}"""
-    exe = vlib.build_driver("rd_driver", flavor)
+    exe = vlib.build_driver("rd_driver", flavor, defs)
     groups = [paths[i:i + chunk] for i in range(0, len(paths), chunk)]
     nsh = min(vlib.NCPU, max(1, len(groups)))
     cmds, outs = [], []
@@ -118,6 +118,8 @@ def reader_dumps(work, paths, flavor="asan", mode="dump", label="rd", chunk=1):
         cmds.append([exe, mode, lst, o])
     env = {"ASAN_OPTIONS": "abort_on_error=1:detect_leaks=0:allocator_may_return_null=1:max_allocation_size_mb=1024",
            "UBSAN_OPTIONS": "halt_on_error=1:abort_on_error=1"}
+    if fwd:
+        env["VERIF_STREAM"] = "fwd"
     for cmd, rc, out in vlib.run_parallel(cmds, timeout=1800, env=env):
         if rc != 0:
             raise vlib.Infra(f"rd_driver failed rc={rc}: {out}")
